@@ -10,6 +10,7 @@ CONSTANTS
   Runnable = {"C"}
   PeerLevels = {"OPTIONAL","REQUIRED"}
   Modes = {"fresh","resumed"}
+  EstChoices = {"Honest","OmitECDH","TruncateECDH","NoCommonCipher"}
   Deviations = {"AnswerAuthNo","AnswerEncNo","OmitECDH","TruncateECDH","RandomECDH","ForeignECDH","NoCommonCipher","SelectUnofferedBit","SelectSeveralBits","SelectZero","ReportDenied","PostAuthDenied","PostAuthInClear","ResumeKeyless","ReplyWithoutKey"}
   MaxDev = 2
   Composites = {{"AnswerAuthNo","OmitECDH"}}
